@@ -1678,3 +1678,116 @@ def register_tables_step(fns):
     x.requires = [("", "", "new version = current.with_new_l0_run(tables, blob_files, frag_map.filter(non-empty)); sealed memtables = old minus exactly the given ids; active memtable untouched")]
     x.shapes = "0, 1, 2 flushed memtable ids x fragmentation diff absent / empty / non-empty"
     return [x]
+
+
+# ---------------------------------------------------------------------------------------------
+# C01 O1.6: rotate_memtable moves the active memtable - and nothing else - into the sealed set
+# ---------------------------------------------------------------------------------------------
+
+def rotate_memtable_step(fns):
+    fn = mir.find(fns, r"src/tree/mod\.rs[^>]*>::rotate_memtable\(")
+    names = struct_fields("version/super_version.rs", "SuperVersion")
+    if names != ["active_memtable", "sealed_memtables", "version", "seqno"]:
+        raise MirError("SuperVersion fields changed: %s" % names)
+
+    def un(v):
+        while isinstance(v, Ref) and not isinstance(v.target, tuple):
+            v = v.target
+        return v
+
+    def runner(timeout):
+        ex = symex.Executor([fn], [])
+        empty = ex.symb("active_is_empty")
+        old_seq = ex.sym("old_seqno", 64)
+        installed = []
+
+        class TreeRec(Obj):
+            def field(self, ex2, i, ty):
+                return Obj("TreeField", i=i, ty=ty)
+        tree = TreeRec("Tree")
+        hist = Obj("History")
+
+        def rsv(env, v):
+            while isinstance(v, Ref):
+                v = env[v.target[1]] if isinstance(v.target, tuple) else v.target
+            return v
+
+        def latest(ex2, env, b, a, p, d):
+            return _one(Tup([Obj("OldActive"), Obj("OldSealed"), Obj("OldVersion"), old_seq]))
+
+        def m_replace(ex2, env, b, a, p, d):
+            installed.append((a[1], list(p.pc)))
+            return _one(Tup([]))
+        opq = lambda kind: (lambda ex2, env, b, a, p, d: _one(Obj(kind, args=a)))
+        ex.models = [(re.compile(r), h) for r, h in [
+            (r"^<Tree as Deref>::deref$", lambda ex2, env, b, a, p, d: _one(tree)),
+            (r"^<Arc<TreeInner> as Deref>::deref$", lambda ex2, env, b, a, p, d: _one(tree)),
+            (r"^<Arc<std::sync::RwLock<SuperVersions>> as Deref>::deref$", lambda ex2, env, b, a, p, d: _one(Obj("Lock"))),
+            (r"^(std::sync::)?RwLock::<SuperVersions>::write$", lambda ex2, env, b, a, p, d: _one(symex.Sum2(B(False), "Ok", "Err", [hist], [Obj("Poison")]))),
+            (r"^std::result::Result::<std::sync::RwLockWriteGuard<'_, SuperVersions>, .*>::expect$", lambda ex2, env, b, a, p, d: _one(a[0].p0[0])),
+            (r"^<std::sync::RwLockWriteGuard<'_, SuperVersions> as Deref(Mut)?>::deref(_mut)?$", lambda ex2, env, b, a, p, d: _one(hist)),
+            (r"^SuperVersions::latest_version$", latest),
+            (r"^<Arc<Memtable> as Deref>::deref$", lambda ex2, env, b, a, p, d: _one(rsv(env, a[0]))),
+            (r"^Memtable::is_empty$", lambda ex2, env, b, a, p, d: _one(empty)),
+            (r"^SequenceNumberCounter::next$", opq("FreshId")),
+            (r"^Memtable::new$", opq("FreshMemtable")),
+            (r"^Arc::<Memtable>::new$", lambda ex2, env, b, a, p, d: _one(a[0])),
+            (r"^<Arc<Memtable> as Clone>::clone$", lambda ex2, env, b, a, p, d: _one(rsv(env, a[0]))),
+            (r"^<Arc<SealedMemtables> as Deref>::deref$", lambda ex2, env, b, a, p, d: _one(rsv(env, a[0]))),
+            (r"^SealedMemtables::add$", lambda ex2, env, b, a, p, d: _one(Obj("Added", prev=rsv(env, a[0]), what=rsv(env, a[1])))),
+            (r"^Arc::<SealedMemtables>::new$", lambda ex2, env, b, a, p, d: _one(a[0])),
+            (r"^SuperVersions::replace_latest_version$", m_replace),
+            (r"^<log::Level as PartialOrd<LevelFilter>>::le$", lambda ex2, env, b, a, p, d: _one(B(False))),
+        ]]
+        res = []
+        ex.run(fn, [Ref(tree)], symex.Path(), lambda ret, env, path: res.append((ret, path)))
+        out = {"nodes": len(res), "steps_bound": 1, "assertions": 0, "violation_disjuncts": 0, "z3_s": 0.0, "queries": 0, "paths": len(res), "feasible_paths": len(res),
+               "assumptions": sorted(ex.assumptions) + ["the version-history lock is not poisoned", "logging is disabled"], "solvers": "cvc5 1.0 --solve-bv-as-int=sum"}
+        bad = []
+        qs = []
+        some_paths = 0
+        for k, (ret, path) in enumerate(res):
+            if isinstance(ret, Opt) and ret.cond.const() is False:
+                qs.append(("none:%d" % k, path.pc + ["(not active_is_empty)"]))  # None only when the active memtable is empty
+                continue
+            if not (isinstance(ret, Opt) and ret.cond.const() is True and same(un(ret.val), Obj("OldActive"))):
+                bad.append("rotate_memtable does not return the memtable it sealed")
+                continue
+            some_paths += 1
+            qs.append(("some:%d" % k, path.pc + ["active_is_empty"]))
+        if len(installed) != some_paths or some_paths == 0:
+            bad.append("replace_latest_version is called %d times on %d rotating paths" % (len(installed), some_paths))
+        for sv, pc in installed:
+            f = sv.items if isinstance(sv, Tup) else None
+            if f is None:
+                bad.append("the installed super version is not built from latest_version()")
+                continue
+            if not (isinstance(f[0], Obj) and f[0].kind == "FreshMemtable"):
+                bad.append("after a rotation the active memtable is not a fresh Memtable::new(..): writes keep going into the sealed memtable")
+            sd = f[1]
+            if not (isinstance(sd, Obj) and sd.kind == "Added" and same(sd.prev, Obj("OldSealed")) and same(sd.what, Obj("OldActive"))):
+                bad.append("the sealed memtables after a rotation are not the old ones plus the previously active memtable (its data would be lost or duplicated)")
+            if not same(f[2], Obj("OldVersion")):
+                bad.append("a rotation changes the version")
+            if not (isinstance(f[3], BV) and f[3].t == "old_seqno"):
+                bad.append("a rotation changes the super version's seqno (held snapshots may resolve differently)")
+        if qs and not bad:
+            r1, dt, raw = symex.solve_batch(ex.decls, qs, "cvc5int", timeout)
+            out.update(z3_s=round(dt, 2), queries=len(qs))
+            if r1 is None:
+                out.update(verdict="inconclusive", reason="solver: %s" % str(raw)[:200], z3="error")
+                return out
+            for t, v in r1.items():
+                if v == "sat":
+                    bad.append("rotate_memtable %s" % ("returns None although the active memtable is not empty" if t.startswith("none") else "rotates an empty memtable"))
+        out["z3"] = out["cvc5"] = "sat" if bad else "unsat"
+        if bad:
+            out.update(verdict="refuted", reason=bad[0], path=["  " + x for x in bad[:4]])
+        else:
+            out.update(verdict="proved", reason="")
+        return out
+
+    x = XCheck("O1.6 Tree::rotate_memtable: fresh active memtable, sealed = old sealed + old active, version and seqno untouched, returns the sealed memtable (None iff empty)", fn, runner)
+    x.requires = [("", "", "see title")]
+    x.shapes = "n/a (loop-free)"
+    return [x]
